@@ -1,1 +1,408 @@
-//! ccsim — engine skeleton (see DESIGN.md §4/§5).
+//! ccsim — deterministic simulation of `qcongestion::ArcCC` (NewReno, RTT, pacer, loss detection, PTO)
+//! against a clause-by-clause re-implementation of RFC 9002 Appendix A/B (property C13, DESIGN §5).
+//!
+//! A `Case` is an explicit op list over a virtual clock; nothing is drawn at execute time.
+use serde::{Deserialize, Serialize};
+use simcore::{Engine, Outcome, Rng, Tier};
+
+pub mod sim;
+
+pub const MSS: usize = 1200;
+
+#[derive(Clone, Copy, Debug, Serialize, Deserialize, PartialEq, Eq)]
+pub enum Fate {
+    /// reaches the peer `ms` virtual milliseconds after it was sent
+    Deliver { ms: u32 },
+    /// dropped by the path
+    Drop,
+    /// dropped because the path is black-holed (counted separately)
+    Blackhole,
+}
+
+#[derive(Clone, Copy, Debug, Serialize, Deserialize, PartialEq, Eq)]
+pub enum AckDelay {
+    /// the peer reports the time it really held the largest acknowledged packet
+    Truthful,
+    /// the peer reports this many microseconds (may exceed max_ack_delay)
+    Us(u32),
+}
+
+#[derive(Clone, Debug, Serialize, Deserialize, PartialEq, Eq)]
+pub enum Op {
+    /// advance the virtual clock; `do_tick` runs at every 10 ms boundary exactly as `Path::drive`
+    Advance { ms: u32 },
+    /// ask `send_quota()` like the burst loop, then `on_pkt_sent`
+    TrySend { epoch: u8, size: u16, ack_eliciting: bool, in_flight: bool, pn_skip: u8, fate: Fate },
+    /// the peer acknowledges what has reached it so far in `epoch`:
+    /// the newest `skip_newest` arrivals are left out (stale / reordered ack), every `thin`-th packet number is
+    /// left out (gaps, acknowledged by a later ack), at most `max_ranges` ranges (0 = no limit)
+    PeerAck { epoch: u8, skip_newest: u8, max_ranges: u8, thin: u8, delay: AckDelay, ce: Option<u32>, lost: bool },
+    /// a packet of the peer is received on this path (`Path::on_packet_rcvd`)
+    PktRcvd { epoch: u8, ack_eliciting: bool },
+    /// handshake keys became available (`HandshakeStatus::got_handshake_key`)
+    HandshakeKey,
+    /// handshake confirmed: `handshake_confirmed()` then both early epochs are discarded, as `handshake.rs` does
+    Confirmed,
+    /// `Path::grant_anti_amplification`
+    AaGrant,
+    /// `PathStatus::enter_anti_amplification_limit` (only has an effect before the grant, as in `Path::send_packets`)
+    AaEnter,
+    DiscardEpoch { epoch: u8 },
+}
+
+#[derive(Clone, Debug, Serialize, Deserialize)]
+pub struct Case {
+    pub server: bool,
+    pub max_ack_delay_ms: u32,
+    /// the handshake status is shared by all paths of a connection: a path created late starts confirmed
+    pub start_confirmed: bool,
+    /// answer `need_send_ack_eliciting > 0` with PING packets the way `Burst::load_ping` does
+    pub auto_probe: bool,
+    /// fates of the auto probes, used cyclically
+    pub probe_fates: Vec<Fate>,
+    pub ops: Vec<Op>,
+}
+
+pub struct CcSim;
+
+struct Profile {
+    owd: u32,
+    jitter: u32,
+    p_drop: f64,
+    p_late: f64,
+    late_ms: u32,
+    p_ackloss: f64,
+    p_stale: f64,
+    p_thin: f64,
+    p_ce: f64,
+    p_delay_beyond: f64,
+    p_small: f64,
+    p_nonae: f64,
+    p_skip: f64,
+}
+
+impl Profile {
+    fn fate(&self, f: &mut Rng) -> Fate {
+        if f.chance(self.p_drop) {
+            return Fate::Drop;
+        }
+        let mut ms = self.owd + if self.jitter > 0 { f.below(self.jitter as u64 + 1) as u32 } else { 0 };
+        if f.chance(self.p_late) {
+            ms += 1 + f.below(self.late_ms as u64 + 1) as u32;
+        }
+        Fate::Deliver { ms }
+    }
+}
+
+impl Engine for CcSim {
+    type Case = Case;
+    fn name(&self) -> &'static str {
+        "ccsim"
+    }
+    fn components_real(&self) -> Vec<&'static str> {
+        vec![
+            "qcongestion::ArcCC (NewReno, Rtt, Pacer, PacketSpace loss detection, PTO) through qcongestion::Transport",
+            "qcongestion::{PathStatus, HandshakeStatus}",
+            "qbase::net::tx::ArcSendWaker",
+            "qbase::frame::AckFrame / EcnCounts",
+            "tokio paused clock",
+        ]
+    }
+    fn components_stub(&self) -> Vec<&'static str> {
+        vec![
+            "Feedback trackers (record every may_loss callback)",
+            "the path and the peer (case decides delivery, delay, drop, acknowledgement frames)",
+            "burst loop (TrySend = send_quota + on_pkt_sent; PING probes as load_ping)",
+        ]
+    }
+
+    fn generate(&self, _index: u64, seed: u64, _tier: Tier) -> Case {
+        let mut c = Rng::derive(seed, "cfg");
+        let mut r = Rng::derive(seed, "workload");
+        let mut f = Rng::derive(seed, "faults");
+        let server = c.one_in(2);
+        let mad = *c.pick(&[0u32, 1, 25, 25, 25, 25, 100, 400]);
+        let owd = *c.pick(&[0u32, 1, 2, 5, 10, 20, 20, 50, 50, 150, 400]);
+        let sw = |c: &mut Rng, lo: f64, hi: f64| if c.one_in(2) { c.log_uniform(lo, hi) } else { 0.0 };
+        let prof = Profile {
+            owd,
+            jitter: if c.one_in(2) { owd / 2 + c.below(4) as u32 } else { 0 },
+            p_drop: sw(&mut c, 0.003, 0.3),
+            p_late: sw(&mut c, 0.005, 0.3),
+            late_ms: owd * 3 + 50,
+            p_ackloss: sw(&mut c, 0.02, 0.5),
+            p_stale: sw(&mut c, 0.02, 0.3),
+            p_thin: sw(&mut c, 0.02, 0.3),
+            p_ce: sw(&mut c, 0.01, 0.3),
+            p_delay_beyond: sw(&mut c, 0.02, 0.5),
+            p_small: if c.one_in(2) { c.f64() * 0.5 } else { 0.02 },
+            p_nonae: if c.one_in(2) { c.f64() * 0.3 } else { 0.02 },
+            p_skip: if c.one_in(3) { c.f64() * 0.2 } else { 0.0 },
+        };
+        let start_confirmed = c.one_in(4);
+        let long = c.one_in(8);
+        let segments = if long { r.range(150, 1200) } else { r.range(8, 150) };
+        // handshake timeline, in segment ordinals
+        let never_confirm = !start_confirmed && c.one_in(5);
+        let hk_at = r.range(0, 6);
+        let grant_at = if server { r.range(0, 5) } else { 0 };
+        let confirm_at = hk_at + r.range(1, 12);
+        let blackhole_bias = c.one_in(3);
+        let app_limited = c.one_in(3);
+
+        let mut ops: Vec<Op> = Vec::new();
+        let mut t_ms: u64 = 0;
+        let mut pkts: u64 = 0;
+        let mut have_hk = start_confirmed;
+        let mut confirmed = start_confirmed;
+        let mut granted = !server;
+        const T_BUDGET: u64 = 95_000;
+        const P_BUDGET: u64 = 4_700;
+
+        let push_send = |ops: &mut Vec<Op>, r: &mut Rng, f: &mut Rng, epoch: u8, fate: Option<Fate>, pkts: &mut u64| {
+            let size = if r.chance(prof.p_small) { r.range(40, 1199) as u16 } else { 1200 };
+            let (ae, inf) = if r.chance(prof.p_nonae) { if r.one_in(2) { (false, true) } else { (false, false) } } else { (true, true) };
+            let pn_skip = if r.chance(prof.p_skip) { r.range(1, 4) as u8 } else { 0 };
+            let fate = fate.unwrap_or_else(|| prof.fate(f));
+            ops.push(Op::TrySend { epoch, size, ack_eliciting: ae, in_flight: inf, pn_skip, fate });
+            *pkts += 1;
+        };
+        let push_ack = |ops: &mut Vec<Op>, r: &mut Rng, f: &mut Rng, epoch: u8| {
+            let lost = f.chance(prof.p_ackloss);
+            let delay = if f.chance(prof.p_delay_beyond) {
+                AckDelay::Us(*r.pick(&[0u32, 1_000, 30_000, 200_000, 2_000_000, 16_000_000]))
+            } else {
+                AckDelay::Truthful
+            };
+            ops.push(Op::PeerAck {
+                epoch,
+                skip_newest: if f.chance(prof.p_stale) { r.range(1, 12) as u8 } else { 0 },
+                max_ranges: if r.one_in(8) { r.range(1, 4) as u8 } else { 0 },
+                thin: if f.chance(prof.p_thin) { r.range(2, 6) as u8 } else { 0 },
+                delay,
+                ce: if f.chance(prof.p_ce) { Some(r.range(1, 3) as u32) } else { None },
+                lost,
+            });
+        };
+
+        for seg in 0..segments {
+            if t_ms >= T_BUDGET || pkts >= P_BUDGET {
+                break;
+            }
+            if !start_confirmed {
+                if seg == grant_at && server && !granted {
+                    if r.one_in(2) {
+                        ops.push(Op::PktRcvd { epoch: 0, ack_eliciting: true });
+                    } else {
+                        ops.push(Op::AaGrant);
+                    }
+                    granted = true;
+                }
+                if seg == hk_at && !have_hk {
+                    ops.push(Op::HandshakeKey);
+                    have_hk = true;
+                }
+                if seg == confirm_at && !never_confirm && !confirmed {
+                    ops.push(Op::Confirmed);
+                    confirmed = true;
+                }
+            }
+            let cur_epoch: u8 = if confirmed {
+                2
+            } else if have_hk {
+                *r.pick(&[1u8, 1, 1, 1, 0, 2])
+            } else {
+                *r.pick(&[0u8, 0, 0, 0, 0, 2])
+            };
+            let any_epoch = |r: &mut Rng| if r.one_in(10) { r.below(3) as u8 } else { cur_epoch };
+            let rtt = (2 * owd).max(1);
+            match r.below(if blackhole_bias { 26 } else { 22 }) {
+                // a round: burst, wait about a round trip, acknowledgement
+                0..=9 => {
+                    let n = if app_limited { r.range(1, 4) } else { *r.pick(&[1u64, 2, 3, 5, 10, 10, 20, 40, 80]) };
+                    for _ in 0..n {
+                        push_send(&mut ops, &mut r, &mut f, cur_epoch, None, &mut pkts);
+                        if r.one_in(6) {
+                            let ms = r.range(1, 12) as u32;
+                            ops.push(Op::Advance { ms });
+                            t_ms += ms as u64;
+                        }
+                    }
+                    let ms = match r.below(4) {
+                        0 => rtt,
+                        1 => rtt + r.below(mad as u64 + 1) as u32,
+                        2 => rtt / 2 + 1,
+                        _ => rtt + r.below(rtt as u64 * 2 + 30) as u32,
+                    };
+                    ops.push(Op::Advance { ms });
+                    t_ms += ms as u64;
+                    push_ack(&mut ops, &mut r, &mut f, cur_epoch);
+                }
+                // ack clocking: small groups of packets interleaved with acks
+                10..=12 => {
+                    let groups = r.range(2, 10);
+                    for _ in 0..groups {
+                        for _ in 0..r.range(1, 4) {
+                            push_send(&mut ops, &mut r, &mut f, cur_epoch, None, &mut pkts);
+                        }
+                        let ms = r.range(1, rtt as u64 / 2 + 10) as u32;
+                        ops.push(Op::Advance { ms });
+                        t_ms += ms as u64;
+                        push_ack(&mut ops, &mut r, &mut f, cur_epoch);
+                    }
+                }
+                13 | 14 => {
+                    let ms = *r.pick(&[1u32, 3, 10, 10, 20, 37, 100, 250, 1000, 3000]);
+                    ops.push(Op::Advance { ms });
+                    t_ms += ms as u64;
+                }
+                15 | 16 => {
+                    let e = any_epoch(&mut r);
+                    push_ack(&mut ops, &mut r, &mut f, e);
+                }
+                17 => {
+                    let e = any_epoch(&mut r);
+                    push_send(&mut ops, &mut r, &mut f, e, None, &mut pkts);
+                }
+                18 => ops.push(Op::PktRcvd { epoch: any_epoch(&mut r), ack_eliciting: !r.one_in(4) }),
+                19 => {
+                    if server && !confirmed && r.one_in(2) {
+                        ops.push(Op::AaEnter);
+                    } else if have_hk && !confirmed && r.one_in(3) {
+                        ops.push(Op::DiscardEpoch { epoch: r.below(2) as u8 });
+                    } else {
+                        ops.push(Op::AaGrant);
+                    }
+                }
+                // keep sending for a long stretch without any acknowledgement (window overrun, S6)
+                20 => {
+                    let n = r.range(5, 60);
+                    for _ in 0..n {
+                        for _ in 0..r.range(1, 6) {
+                            push_send(&mut ops, &mut r, &mut f, cur_epoch, None, &mut pkts);
+                        }
+                        let ms = *r.pick(&[1u32, 5, 10, 10, 12, 25]);
+                        ops.push(Op::Advance { ms });
+                        t_ms += ms as u64;
+                    }
+                    push_ack(&mut ops, &mut r, &mut f, cur_epoch);
+                }
+                // blackhole: everything sent is dropped, nothing is acknowledged
+                _ => {
+                    let dur = *r.pick(&[300u64, 1_000, 3_000, 10_000, 30_000, 60_000]);
+                    let mut spent = 0u64;
+                    f.next_u64();
+                    while spent < dur && t_ms + spent < T_BUDGET {
+                        if r.one_in(3) && pkts < P_BUDGET {
+                            push_send(&mut ops, &mut r, &mut f, cur_epoch, Some(Fate::Blackhole), &mut pkts);
+                        }
+                        let ms = *r.pick(&[10u32, 50, 100, 400, 1_000, 2_500]);
+                        ops.push(Op::Advance { ms });
+                        spent += ms as u64;
+                    }
+                    t_ms += spent;
+                }
+            }
+        }
+        let blackhole_probes = c.one_in(2);
+        let probe_fates: Vec<Fate> = (0..8)
+            .map(|_| if blackhole_probes { Fate::Blackhole } else { prof.fate(&mut f) })
+            .collect();
+        Case { server, max_ack_delay_ms: mad, start_confirmed, auto_probe: !c.one_in(6), probe_fates, ops }
+    }
+
+    fn execute(&self, case: &Case) -> Outcome {
+        let rt = tokio::runtime::Builder::new_current_thread().enable_time().start_paused(true).build().unwrap();
+        rt.block_on(sim::run(case))
+    }
+
+    fn shrink(&self, case: &Case) -> Vec<Case> {
+        let mut v = Vec::new();
+        let n = case.ops.len();
+        let with = |ops: Vec<Op>| Case { ops, ..case.clone() };
+        if n > 1 {
+            v.push(with(case.ops[..n / 2].to_vec()));
+            v.push(with(case.ops[..n - 1].to_vec()));
+        }
+        // remove chunks, large to small
+        let mut chunk = n / 2;
+        while chunk >= 2 {
+            let mut start = 0;
+            while start + chunk <= n && v.len() < 400 {
+                let mut ops = case.ops[..start].to_vec();
+                ops.extend_from_slice(&case.ops[start + chunk..]);
+                v.push(with(ops));
+                start += chunk;
+            }
+            chunk /= 2;
+        }
+        for i in (0..n).rev().take(200) {
+            let mut ops = case.ops.clone();
+            ops.remove(i);
+            v.push(with(ops));
+        }
+        if case.auto_probe {
+            v.push(Case { auto_probe: false, ..case.clone() });
+        }
+        if case.probe_fates.len() > 1 {
+            v.push(Case { probe_fates: case.probe_fates[..1].to_vec(), ..case.clone() });
+        }
+        // simplify single ops
+        for i in 0..n.min(200) {
+            let mut ops = case.ops.clone();
+            let changed = match &mut ops[i] {
+                Op::TrySend { size, pn_skip, fate, .. } => {
+                    let mut ch = false;
+                    if *size != 1200 {
+                        *size = 1200;
+                        ch = true;
+                    }
+                    if *pn_skip != 0 {
+                        *pn_skip = 0;
+                        ch = true;
+                    }
+                    if let Fate::Deliver { ms } = fate {
+                        if *ms > 0 {
+                            *ms = 0;
+                            ch = true;
+                        }
+                    }
+                    ch
+                }
+                Op::PeerAck { skip_newest, max_ranges, thin, delay, ce, .. } => {
+                    let mut ch = false;
+                    if *skip_newest != 0 {
+                        *skip_newest = 0;
+                        ch = true;
+                    }
+                    if *max_ranges != 0 {
+                        *max_ranges = 0;
+                        ch = true;
+                    }
+                    if *thin != 0 {
+                        *thin = 0;
+                        ch = true;
+                    }
+                    if *delay != AckDelay::Us(0) {
+                        *delay = AckDelay::Us(0);
+                        ch = true;
+                    }
+                    if ce.is_some() {
+                        *ce = None;
+                        ch = true;
+                    }
+                    ch
+                }
+                Op::Advance { ms } if *ms > 10 => {
+                    *ms = (*ms / 2).max(10);
+                    true
+                }
+                _ => false,
+            };
+            if changed {
+                v.push(with(ops));
+            }
+        }
+        v
+    }
+}
